@@ -1,9 +1,8 @@
 import TarsModel.Proofs.CallPathCall
-import TarsModel.Proofs.CallPathStale
 
 /-!
 # A concrete instance of the C01 hypotheses (non-vacuity of `C01_transparent`, `C01_failure`,
-  `C01_oneway`; witness of `C01_stale_out_counterexample`)
+  `C01_oneway`, and of a call with a reused out variable)
 
 IDL: `struct S { 0 require int a; 1 optional string b; };`
 `interface I { long f(int x, out S s); void get(out S s); };`
@@ -12,7 +11,14 @@ namespace Tars
 open Consts CallPath Filter
 
 namespace C01Example
-open CallPath.StaleEx
+
+def sFields : List Field := [⟨0, true, .i32, none⟩, ⟨1, false, .str, none⟩]
+def env : Env := [("S", sFields)]
+def sigG : Sig := ⟨[⟨true, .struct "S"⟩], none⟩
+def oldStr : Bytes := [byte 111, byte 108, byte 100]
+def newS : Val := .struct [.int 5, .str []]
+
+theorem find_S : env.find "S" = some sFields := by simp [env, Env.find]
 
 def rk : String → Nat := fun _ => 0
 
